@@ -11,27 +11,27 @@ Lemma run_cons c s now o rest :
 Proof. reflexivity. Qed.
 
 Lemma run_obs c script : forall s now,
-  map e_obs (run c s now script) = map fst script.
+  map e_obs (run c s now script) = map i_obs script.
 Proof.
   induction script as [|o rest IH]; intros s now; [reflexivity|].
   rewrite run_cons. destruct (step c s now o) as [[s' now'] e] eqn:E.
   cbn [map]. rewrite IH. f_equal.
   unfold step in E.
-  destruct (negb (eqb (fst o) (last s)));
+  destruct (negb (eqb (i_obs o) (last s)));
     [|destruct (_ && _ && _ && _)]; inversion E; reflexivity.
 Qed.
 
 (* characterisation of a firing step *)
 Lemma step_fire c s now o s' now' e :
   step c s now o = (s', now', e) -> e_fire e = true ->
-  let t := wait_until c s now + snd o in
-  fst o = last s /\ fst o <> stable s /\ trig s = false /\
+  let t := wait_until c s (now + i_pre o) + i_d o in
+  i_obs o = last s /\ i_obs o <> stable s /\ trig s = false /\
   cN c <= cnt s + 1 /\ since_ge t (start s) (cP c) = true /\
-  e_obs e = fst o /\ e_at e = t /\ stable s' = fst o /\
-  now' = (if fst o then t else t + cC c).
+  e_obs e = i_obs o /\ e_at e = t /\ stable s' = i_obs o /\
+  now' = (if i_obs o then t else wait_from t (cC c)) + i_post o.
 Proof.
   unfold step. intros E F.
-  destruct (negb (eqb (fst o) (last s))) eqn:Hc.
+  destruct (negb (eqb (i_obs o) (last s))) eqn:Hc.
   { inversion E; subst; discriminate. }
   destruct (_ && _ && _ && _) eqn:Hg.
   2:{ inversion E; subst; discriminate. }
@@ -50,7 +50,7 @@ Lemma step_nofire_stable c s now o s' now' e :
   step c s now o = (s', now', e) -> e_fire e = false -> stable s' = stable s.
 Proof.
   unfold step. intros E F.
-  destruct (negb (eqb (fst o) (last s))).
+  destruct (negb (eqb (i_obs o) (last s))).
   { inversion E; subst; reflexivity. }
   destruct (_ && _ && _ && _).
   { inversion E; subst; discriminate. }
@@ -75,7 +75,7 @@ Proof.
   - pose proof (step_fire _ _ _ _ _ _ _ E F) as H. cbn zeta in H.
     destruct H as (_ & Hns & _ & _ & _ & Ho & _ & Hs' & _).
     cbn [app map fst alternates_from]. split.
-    + rewrite Ho. destruct (fst o), (stable s); try reflexivity; congruence.
+    + rewrite Ho. destruct (i_obs o), (stable s); try reflexivity; congruence.
     + rewrite Ho, <- Hs'. apply IH.
   - cbn [app]. rewrite <- (step_nofire_stable _ _ _ _ _ _ _ E F). apply IH.
 Qed.
@@ -107,27 +107,17 @@ Lemma step_inv c s now o s' now' e pre :
   Inv s pre -> step c s now o = (s', now', e) -> Inv s' (pre ++ [e]).
 Proof.
   unfold step, Inv. intros HI E.
-  destruct (negb (eqb (fst o) (last s))) eqn:Hc.
+  destruct (negb (eqb (i_obs o) (last s))) eqn:Hc.
   - inversion E; subst; clear E. cbn.
-    exists pre, [], {| e_obs := fst o; e_at := wait_until c s now + snd o; e_fire := false |}.
+    exists pre, [], {| e_obs := i_obs o; e_at := wait_until c s (now + i_pre o) + i_d o;
+                       e_fire := false |}.
     repeat split; auto.
   - apply negb_false_iff, eqb_prop in Hc.
-    assert (Hcase : forall tr st' lr e0,
-      e_obs e0 = fst o ->
-      match start s with
-      | None => st' = true /\ fst o = true
-      | Some t0 => exists pre1 r f, pre ++ [e0] = pre1 ++ f :: r /\
-          Forall (fun x => e_obs x = fst o) (f :: r) /\
-          Z.of_nat (length (f :: r)) = cnt s + 1 /\ e_at f = t0
-      end ->
-      Inv {| last := fst o; cnt := cnt s + 1; start := start s; trig := tr;
-             stable := st'; lastRun := lr |} (pre ++ [e0])).
-    { intros tr st' lr e0 _ H. unfold Inv. cbn. exact H. }
     destruct (start s) as [t0|] eqn:Hs.
     + destruct HI as (pre1 & r & f & Hp & Hall & Hlen & Hat).
-      assert (Hgen : forall e0, e_obs e0 = fst o ->
+      assert (Hgen : forall e0, e_obs e0 = i_obs o ->
         exists pre2 r2 f2, pre ++ [e0] = pre2 ++ f2 :: r2 /\
-          Forall (fun x => e_obs x = fst o) (f2 :: r2) /\
+          Forall (fun x => e_obs x = i_obs o) (f2 :: r2) /\
           Z.of_nat (length (f2 :: r2)) = cnt s + 1 /\ e_at f2 = t0).
       { intros e0 He0. exists pre1, (r ++ [e0]), f. repeat split.
         - rewrite Hp, <- app_assoc. reflexivity.
@@ -177,7 +167,7 @@ Proof.
     eapply IH; eauto. eapply step_inv; eauto.
 Qed.
 
-(* ---------- cool-down ---------- *)
+(* ---------- the clock never runs backwards; cool-down ---------- *)
 
 Lemma wait_until_ge c s now : now <= wait_until c s now.
 Proof.
@@ -185,47 +175,106 @@ Proof.
   destruct (0 <? _) eqn:H; [apply Z.ltb_lt in H|]; lia.
 Qed.
 
-Lemma step_times c s now o s' now' e :
-  0 <= cC c -> 0 <= snd o -> step c s now o = (s', now', e) ->
-  now <= e_at e /\ e_at e <= now' /\
-  (e_fire e = true -> e_obs e = false -> now' = e_at e + cC c).
+(* the wait at the top of the loop ends no earlier than MinTimeBetweenCalls after
+   the end of the previous iteration *)
+Lemma wait_until_interval c s now lr :
+  lastRun s = Some lr -> lr + cI c <= wait_until c s now.
 Proof.
-  intros HC Hd E. pose proof (wait_until_ge c s now) as Hw.
-  unfold step in E.
-  destruct (negb (eqb (fst o) (last s))).
+  unfold wait_until. intros ->.
+  destruct (0 <? _) eqn:H; [apply Z.ltb_lt in H|apply Z.ltb_ge in H]; lia.
+Qed.
+
+Lemma step_times c s now o s' now' e :
+  item_ok o -> step c s now o = (s', now', e) ->
+  now <= e_at e /\ e_at e <= now' /\ lastRun s' = Some now' /\
+  (e_fire e = true -> e_obs e = false -> e_at e + Z.max (cC c) 0 <= now').
+Proof.
+  intros (Hp & Hd & Hq) E. pose proof (wait_until_ge c s (now + i_pre o)) as Hw.
+  unfold step, wait_from in E.
+  destruct (negb (eqb (i_obs o) (last s))).
   { inversion E; subst; cbn. repeat split; try lia; try discriminate. }
   destruct (_ && _ && _ && _).
-  - inversion E; subst; cbn. destruct (fst o); repeat split; try lia; try discriminate.
+  - inversion E; subst; cbn. destruct (i_obs o); repeat split; try lia; try discriminate.
   - inversion E; subst; cbn. repeat split; try lia; try discriminate.
 Qed.
 
 Lemma run_after c script : forall s now,
-  0 <= cC c -> Forall (fun o => 0 <= snd o) script ->
+  Forall item_ok script ->
   Forall (fun e => now <= e_at e) (run c s now script).
 Proof.
-  induction script as [|o rest IH]; intros s now HC Hd; [constructor|].
+  induction script as [|o rest IH]; intros s now Hd; [constructor|].
   rewrite run_cons. destruct (step c s now o) as [[s' now'] e] eqn:E.
   inversion Hd; subst.
-  destruct (step_times _ _ _ _ _ _ _ HC H1 E) as (H3 & H4 & _).
+  destruct (step_times _ _ _ _ _ _ _ H1 E) as (H3 & H4 & _).
   constructor; [exact H3|].
   eapply Forall_impl; [|apply IH; assumption]. cbn. intros; lia.
 Qed.
 
+(* observation instants never decrease *)
+Fixpoint nondecreasing (l : list Z) : Prop :=
+  match l with
+  | [] => True
+  | x :: r => Forall (fun y => x <= y) r /\ nondecreasing r
+  end.
+
+Lemma run_monotone c script : forall s now,
+  Forall item_ok script -> nondecreasing (map e_at (run c s now script)).
+Proof.
+  induction script as [|o rest IH]; intros s now Hd; [exact I|].
+  rewrite run_cons. destruct (step c s now o) as [[s' now'] e] eqn:E.
+  inversion Hd; subst.
+  destruct (step_times _ _ _ _ _ _ _ H1 E) as (_ & H4 & _).
+  cbn [map nondecreasing]. split; [|apply IH; assumption].
+  apply Forall_map. eapply Forall_impl; [|apply (run_after c rest s' now'); assumption].
+  cbn. intros; lia.
+Qed.
+
 Lemma cooldown_silent c script : forall s now,
-  0 <= cC c -> Forall (fun o => 0 <= snd o) script ->
+  Forall item_ok script ->
   forall pre e post,
     run c s now script = pre ++ e :: post ->
     e_fire e = true -> e_obs e = false ->
-    Forall (fun e' => e_at e + cC c <= e_at e') post.
+    Forall (fun e' => e_at e + Z.max (cC c) 0 <= e_at e') post.
 Proof.
-  induction script as [|o rest IH]; intros s now HC Hd pre e post Hr F Ho.
+  induction script as [|o rest IH]; intros s now Hd pre e post Hr F Ho.
   { destruct pre; discriminate. }
   rewrite run_cons in Hr. destruct (step c s now o) as [[s' now'] e0] eqn:E.
   inversion Hd; subst.
   destruct pre as [|x pre'].
   - cbn in Hr. inversion Hr; subst.
-    destruct (step_times _ _ _ _ _ _ _ HC H1 E) as (_ & _ & H5).
-    rewrite <- (H5 F Ho). apply run_after; assumption.
+    destruct (step_times _ _ _ _ _ _ _ H1 E) as (_ & _ & _ & H5).
+    eapply Forall_impl; [|apply (run_after c rest s' now'); assumption].
+    cbn. intros a Ha. specialize (H5 F Ho). lia.
+  - cbn in Hr. inversion Hr; subst. eapply IH; eauto.
+Qed.
+
+(* consecutive checks are at least MinTimeBetweenCalls apart (the next check is
+   never earlier than the end of this iteration + the interval) *)
+Lemma interval_respected c script : forall s now,
+  Forall item_ok script ->
+  forall pre e e' post,
+    run c s now script = pre ++ e :: e' :: post ->
+    e_at e + cI c <= e_at e'.
+Proof.
+  induction script as [|o rest IH]; intros s now Hd pre e e' post Hr.
+  { destruct pre; discriminate. }
+  rewrite run_cons in Hr. destruct (step c s now o) as [[s' now'] e0] eqn:E.
+  inversion Hd; subst.
+  destruct pre as [|x pre'].
+  - cbn [app] in Hr. injection Hr as He0 Hrest. subst e0.
+    destruct (step_times _ _ _ _ _ _ _ H1 E) as (_ & Hle & Hlr & _).
+    destruct rest as [|o2 rest2]; [discriminate|].
+    rewrite run_cons in Hrest.
+    destruct (step c s' now' o2) as [[s2 now2] e2] eqn:E2.
+    injection Hrest as He2 _. subst e2.
+    inversion H2 as [|? ? Hok2 _]; subst.
+    destruct Hok2 as (Hp2 & Hd2 & _).
+    pose proof (wait_until_interval c s' (now' + i_pre o2) now' Hlr) as Hw.
+    assert (Hat : e_at e' = wait_until c s' (now' + i_pre o2) + i_d o2).
+    { unfold step in E2.
+      destruct (negb (eqb (i_obs o2) (last s'))); [|destruct (_ && _ && _ && _)];
+        inversion E2; reflexivity. }
+    lia.
   - cbn in Hr. inversion Hr; subst. eapply IH; eauto.
 Qed.
 
@@ -235,19 +284,22 @@ Definition has_run (n : Z) (l : list bool) : Prop :=
   exists pre r post b, l = pre ++ r ++ post /\ Forall (fun x => x = b) r /\
                        n <= Z.of_nat (length r).
 
+Lemma fire_exists (tr : list ev) :
+  reactions tr <> [] -> exists pre e post, tr = pre ++ e :: post /\ e_fire e = true.
+Proof.
+  induction tr as [|x tr IH]; [intros H; contradiction H; reflexivity|].
+  unfold reactions. cbn [flat_map]. destruct (e_fire x) eqn:Fx.
+  - intros _. exists [], x, tr. auto.
+  - cbn [app]. intros H. destruct (IH H) as (p & e & q & -> & F).
+    exists (x :: p), e, q. auto.
+Qed.
+
 Lemma fire_has_run c script t0 :
   reactions (run c init t0 script) <> [] ->
-  has_run (Z.max (cN c) 2) (map fst script).
+  has_run (Z.max (cN c) 2) (map i_obs script).
 Proof.
   intros Hne.
-  assert (exists pre e post, run c init t0 script = pre ++ e :: post /\ e_fire e = true)
-    as (pre & e & post & Hr & F).
-  { revert Hne. generalize (run c init t0 script). intros tr.
-    induction tr as [|x tr IH]; [intros H; contradiction H; reflexivity|].
-    unfold reactions. cbn [flat_map]. destruct (e_fire x) eqn:Fx.
-    - intros _. exists [], x, tr. auto.
-    - cbn [app]. intros H. destruct (IH H) as (p & e & q & -> & F).
-      exists (x :: p), e, q. auto. }
+  destruct (fire_exists _ Hne) as (pre & e & post & Hr & F).
   pose proof (stable_before_all c script init t0 [] Inv_init pre e post Hr F) as SB.
   cbn [app] in SB. destruct SB as (pre1 & r & f & Hp & Hall & Hlen & _).
   rewrite <- (run_obs c script init t0), Hr, Hp.
@@ -259,3 +311,38 @@ Proof.
     + cbn. constructor; auto.
   - rewrite map_length, app_length. cbn [length] in *. lia.
 Qed.
+
+(* the time reading of "flapping": no stretch of equal consecutive observations
+   spans the stable period *)
+Definition brief (c : cfg) (tr : list ev) : Prop :=
+  forall pre1 f r e post,
+    tr = pre1 ++ f :: r ++ e :: post ->
+    Forall (fun x => e_obs x = e_obs e) (f :: r) ->
+    e_at e - e_at f < cP c.
+
+Lemma brief_never_fires c script t0 :
+  brief c (run c init t0 script) -> reactions (run c init t0 script) = [].
+Proof.
+  intros Hb.
+  destruct (reactions (run c init t0 script)) eqn:E; [reflexivity|].
+  exfalso.
+  assert (Hne : reactions (run c init t0 script) <> []) by (rewrite E; discriminate).
+  destruct (fire_exists _ Hne) as (pre & e & post & Hr & F).
+  pose proof (stable_before_all c script init t0 [] Inv_init pre e post Hr F) as SB.
+  cbn [app] in SB. destruct SB as (pre1 & r & f & Hp & Hall & _ & HP).
+  specialize (Hb pre1 f r e post).
+  rewrite Hr, Hp in Hb. rewrite <- app_assoc in Hb. cbn [app] in Hb.
+  specialize (Hb eq_refl Hall). lia.
+Qed.
+
+(* ---------- the scripts of pairs are instances ---------- *)
+
+Lemma of_pair_ok script :
+  Forall (fun o : bool * Z => 0 <= snd o) script -> Forall item_ok (map of_pair script).
+Proof.
+  intros H. apply Forall_map. eapply Forall_impl; [|exact H].
+  intros o Ho. unfold item_ok, of_pair. cbn [i_pre i_d i_post]. cbn beta in Ho. lia.
+Qed.
+
+Lemma of_pair_obs script : map i_obs (map of_pair script) = map fst script.
+Proof. rewrite map_map. reflexivity. Qed.
